@@ -27,6 +27,10 @@ type Case struct {
 	Class   string        `json:"class"`
 	Integer bool          `json:"integer"`
 	P       [4][2]model.F `json:"p"`
+	// Extra: 0 = plain x,y coordinates; 1 = every endpoint carries its own, distinct
+	// third ordinate; 2 = endpoints of different lengths (2, 3, 4, 2 ordinates).
+	// Only x and y take part in any of the functions.
+	Extra int `json:"extra,omitempty"`
 }
 
 func ipt(x, y int64) [2]model.F { return [2]model.F{model.Of(float64(x)), model.Of(float64(y))} }
@@ -183,14 +187,32 @@ func genFloat(t *rapid.T) Case {
 }
 
 func genCase(t *rapid.T) Case {
+	var c Case
 	if rapid.IntRange(0, 3).Draw(t, "float") == 0 {
-		return genFloat(t)
+		c = genFloat(t)
+	} else {
+		c = genInt(t)
 	}
-	return genInt(t)
+	c.Extra = rapid.SampledFrom([]int{0, 0, 1, 2}).Draw(t, "extra")
+	return c
 }
 
 func ep(p [2]model.F) exact.P2   { return exact.Pt(p[0].V(), p[1].V()) }
 func co(p [2]model.F) geom.Coord { return geom.Coord{p[0].V(), p[1].V()} }
+
+// coi is endpoint i of the case as the coordinate handed to the library.
+func coi(c Case, i int) geom.Coord {
+	out := co(c.P[i])
+	switch c.Extra {
+	case 1:
+		out = append(out, float64(100+i))
+	case 2:
+		for k := 0; k < []int{0, 1, 2, 0}[i]; k++ {
+			out = append(out, float64(10*i+k)+0.5)
+		}
+	}
+	return out
+}
 
 var variants = [][4]int{{0, 1, 2, 3}, {1, 0, 2, 3}, {0, 1, 3, 2}, {1, 0, 3, 2}, {2, 3, 0, 1}, {3, 2, 0, 1}, {2, 3, 1, 0}, {3, 2, 1, 0}}
 
@@ -261,7 +283,7 @@ func prop(c Case) error {
 	wantKind, wantPts := exact.SegSeg(P[0], P[1], P[2], P[3])
 	before := c.P
 	for vi, idx := range variants {
-		r := lineintersector.LineIntersectsLine(lineintersector.RobustLineIntersector{}, co(c.P[idx[0]]), co(c.P[idx[1]]), co(c.P[idx[2]]), co(c.P[idx[3]]))
+		r := lineintersector.LineIntersectsLine(lineintersector.RobustLineIntersector{}, coi(c, idx[0]), coi(c, idx[1]), coi(c, idx[2]), coi(c, idx[3]))
 		what := fmt.Sprintf("robust, variant %d %v of %v", vi, idx, show(c))
 		if int(r.Type()) != wantKind {
 			return fmt.Errorf("%s: type %v, exact %v", what, r.Type(), lineintersection.Type(wantKind))
@@ -326,7 +348,7 @@ func prop(c Case) error {
 			}
 		}
 		if c.Integer {
-			nr := lineintersector.LineIntersectsLine(lineintersector.NonRobustLineIntersector{}, co(c.P[idx[0]]), co(c.P[idx[1]]), co(c.P[idx[2]]), co(c.P[idx[3]]))
+			nr := lineintersector.LineIntersectsLine(lineintersector.NonRobustLineIntersector{}, coi(c, idx[0]), coi(c, idx[1]), coi(c, idx[2]), coi(c, idx[3]))
 			if nr.HasIntersection() != (wantKind != exact.NoInt) {
 				return fmt.Errorf("non-robust, variant %d of %v: HasIntersection = %v, exact type %v", vi, show(c), nr.HasIntersection(), lineintersection.Type(wantKind))
 			}
